@@ -99,14 +99,39 @@ def panic_clause(loc, msg, text):
 # ---------------------------------------------------------------------------------------------
 # harness runner that survives a HANG / abort of the harness process
 
+MAX_RESTARTS = 10
+_SMALL_PATH = None
+
+
+def small_path():
+    """a PATH with a handful of commands: command-name completion scans every PATH directory at every
+    cursor, which on a loaded machine is slow enough to look like a hang"""
+    global _SMALL_PATH
+    if _SMALL_PATH is None:
+        d = os.path.join(lib.BUILD, "c01-path")
+        os.makedirs(d, exist_ok=True)
+        for c in ("echo", "cat", "ls", "true", "env"):
+            src = shutil.which(c, path="/usr/bin:/bin")
+            dst = os.path.join(d, c)
+            if src and not os.path.lexists(dst):
+                try:
+                    os.symlink(src, dst)
+                except OSError:
+                    pass
+        _SMALL_PATH = d
+    return _SMALL_PATH
+
+
 def run_harness(lines, timeout=900):
     """Returns one response per line. A harness that exits early (watchdog → `HANG`, stack overflow,
-    abort) is restarted on the remaining lines; the line it died on answers `HANG` or `DIED <how>`."""
+    abort) is restarted on the remaining lines; the line it died on answers `HANG` or `DIED <how>`.
+    After MAX_RESTARTS restarts the remaining lines answer `SKIPPED` (the run has failed by then; it must
+    not also take for ever)."""
     out = []
     rest = list(lines)
     restarts = 0
     while rest:
-        rc, got, err = lib.run_vh(BIN, rest, timeout=timeout, env={"C01_WATCHDOG_MS": str(WATCHDOG_MS)})
+        rc, got, err = lib.run_vh(BIN, rest, timeout=timeout, env={"C01_WATCHDOG_MS": str(WATCHDOG_MS), "PATH": small_path()})
         if len(got) >= len(rest):
             out.extend(got[:len(rest)])
             break
@@ -124,8 +149,8 @@ def run_harness(lines, timeout=900):
             out.append("DIED " + how + " " + esc(" | ".join(tail))[:300])
             rest = rest[len(got) + 1:]
         restarts += 1
-        if restarts > 60:
-            out.extend(["DIED too-many-restarts"] * len(rest))
+        if restarts > MAX_RESTARTS:
+            out.extend(["SKIPPED"] * len(rest))
             break
     return out
 
@@ -343,6 +368,9 @@ def hot_stage(ctx):
             op = h.split(" ")[0]
             kb = {"SUBSTR": "substr", "ASUBSTR": "asubstr", "PSUBSTR": "psubstr", "HIST": "hist", "INDEX": "index",
                   "LOOP": "loop", "ARITH": "arith", "UNARY": "unary"}.get(op, "brace_char" if d.startswith("BRACEC") else "brace_num")
+        if b == "SKIPPED":
+            ctx.bucket("skipped_after_too_many_harness_restarts")
+            continue
         bk, bp, loc, msg = split_resp(b)
         mk, mp, _, _ = split_resp(m)
         ctx.count(h, nontrivial=True, bucket="hot_" + kb)
@@ -390,6 +418,127 @@ def hot_stage(ctx):
         for i in (0, len(runnable) // 2, len(runnable) - 1):
             (k, h, d), m = runnable[i]
             ctx.sample({"hot": h, "brush": bouts[i], "model": m})
+
+
+# ---------------------------------------------------------------------------------------------
+# 2b. recursion shapes: everything that re-enters evaluation must be bounded (binary only: an
+#     unbounded one overflows the native stack, which no in-process harness survives)
+
+# environments of scalars (C07's variable universe) whose contents refer to each other
+CYC_ENVS = [
+    ("self", {"x": "x"}), ("self_expr", {"x": "x+1"}), ("two", {"x": "y", "y": "x"}), ("three", {"x": "y", "y": "z", "z": "x"}),
+    ("sub_self", {"x": "a[x]"}), ("sub_two", {"x": "a[y]", "y": "x"}), ("sub_nested", {"x": "a[a[x]]"}), ("sub_expr", {"x": "b[x+1]*2"}),
+    ("elem0_self", {"a": "a[a[0]]"}), ("elem0_plain", {"a": "a[0]"}), ("cond", {"x": "x?1:2"}), ("assign_in", {"x": "y=x"}),
+    ("sub_assign", {"x": "a[x]=1"}), ("sub_inc", {"x": "a[x]++"}), ("paren", {"x": "(x)"}), ("neg", {"x": "-x"}),
+    ("fine_chain", {"x": "y", "y": "z", "z": "7"}), ("fine_sub", {"x": "a[y]", "y": "2"}), ("fine_lit", {"x": "5"}),
+]
+CYC_EXPRS = ["x", "x+0", "a[x]", "a[x]=1", "a[x]++", "++a[x]", "a[x]+=1", "a[x]<<=1", "x=1", "++x", "x++", "x+=1", "-x", "!x", "x&&1", "0&&x", "1||x",
+             "1?2:x", "0?2:x", "x,1", "a[a[x]]", "b[x]=a[x]", "y", "a", "a[0]", "a[0]=1"]
+# shell contexts that evaluate arithmetic on a name (N = the cyclic name)
+CYC_CONTEXTS = [
+    "echo $((N))", "((N)); echo $?", "let N; echo $?", "let 'a[N]=1'; echo $?", "(( a[N] = 1 )); echo $?", "(( a[N]++ )); echo $?", "(( a[N] += 2 )); echo $?",
+    "echo \"${a[N]}\"", "a[N]=v; echo $?", "a[N]+=v; echo $?", "s=abcdef; echo \"${s:N:1}\"", "s=abcdef; echo \"${s:0:N}\"", "b=(1 2 3); echo \"${b[@]:N:1}\"",
+    "declare -i n; n=N; echo $?", "declare -i n=N; echo $?", "declare -i n=1; n+=N; echo $?", "[[ N -eq 0 ]]; echo $?", "[[ 0 -lt N ]]; echo $?",
+    "for ((;N;)); do break; done; echo $?", "for ((k=0;k<1;k+=N+1)); do :; done; echo $?", "echo $[N]", "unset 'a[N]'; echo $?", "[[ -v a[N] ]]; echo $?",
+    "read 'a[N]' <<< 1; echo $?", "printf -v 'a[N]' %s 1; echo $?", "b=([N]=1); echo $?", "declare -a b=([N]=1); echo $?", "while ((N)); do break; done; echo $?",
+    "case $((N)) in *) echo c;; esac", "echo $(( ${N} ))", "echo \"${#a[N]}\"", "echo \"${a[N]:-d}\"", "shift N; echo $?", "echo ${!a[N]}; echo $?",
+    "f() { return N; }; f; echo $?", "echo $((N)) | cat", "echo $(echo $((N)))", "( echo $((N)) )", "eval 'echo $((N))'", "x() { echo $((N)); }; x",
+]
+CYC_SETUPS = [  # (name, setup text, the cyclic name) — also arrays and associative arrays, which the scalar model does not cover
+    ("scalar_sub", "i='a[i]'", "i"), ("scalar_two", "i=j; j='a[i]'", "i"), ("elem", "a[0]='a[a[0]]'", "a[0]"), ("elem1", "a[1]='a[a[1]]'; i=1", "a[i]"),
+    ("assoc", "declare -A m; m[k]='m[k]'", "m[k]"), ("self", "i=i", "i"), ("expr", "i='i+1'", "i"), ("fine", "i=2; a[2]=3", "i"),
+]
+OTHER_RECURSION = [
+    ("alias_two", "shopt -s expand_aliases\nalias a=b b=a\na; echo $?\n"), ("alias_self", "shopt -s expand_aliases\nalias a='a x'\na; echo $?\n"),
+    ("alias_chain", "shopt -s expand_aliases\nalias a='b ' b='c ' c='a '\na a a; echo $?\n"), ("alias_trailing_blank", "shopt -s expand_aliases\nalias e='echo ' w='w2' w2='w'\ne w\n"),
+    ("indirect_self", "v=v; echo \"${!v}\""), ("indirect_two", "v=w; w=v; echo \"${!v}\" \"${!w}\""), ("indirect_sub", "v='a[v]'; echo \"${!v}\"; echo $?"),
+    ("nameref_self", "declare -n r=r; echo $?; echo \"$r\"; r=1; echo $?"), ("nameref_two", "declare -n p=q q=p; echo \"$p\"; p=1; echo $?; unset p; echo $?"),
+    ("nameref_sub", "declare -n r='a[r]'; echo \"$r\"; r=1; echo $?"), ("nameref_arith", "declare -n r=s; s=r; echo $((r)); echo $?"),
+    ("func_64", "f() { (($1)) && f $(($1-1)); }; f 64; echo done $?"), ("func_200", "f() { (($1)) && f $(($1-1)); }; f 200; echo done $?"),
+    ("func_mutual_64", "f() { (($1)) && g $(($1-1)); }; g() { (($1)) && f $(($1-1)); }; f 64; echo done"),
+    ("func_subst_32", "f() { (($1)) && echo $(f $(($1-1))) || echo leaf; }; f 32"), ("func_pipe_32", "f() { (($1)) && { f $(($1-1)) | cat; } || echo leaf; }; f 32"),
+    ("func_subshell_64", "f() { (($1)) && ( f $(($1-1)) ) || echo leaf; }; f 64"),
+    ("eval_64", "e0='echo hi'; for k in {1..64}; do eval \"e$k='eval \\\"\\$e$((k-1))\\\"'\"; done; eval \"$e64\""),
+    ("cmdsub_64", "c='echo hi'; for k in {1..64}; do c=\"echo \\$($c)\"; done; eval \"$c\""),
+    ("subshell_64", "c='echo hi'; for k in {1..64}; do c=\"( $c )\"; done; eval \"$c\""), ("group_64", "c='echo hi'; for k in {1..64}; do c=\"{ $c; }\"; done; eval \"$c\""),
+    ("arith_paren_64", "c=1; for k in {1..64}; do c=\"($c+1)\"; done; echo $(($c))"), ("param_default_64", "c=x; for k in {1..64}; do c=\"\\${u:-$c}\"; done; eval \"echo $c\""),
+    ("source_self_bounded", "n=0; printf 'n=$((n+1)); ((n<40)) && . ./s.sh; :\\n' > s.sh; . ./s.sh; echo $n"),
+    ("trap_in_trap", "trap 'trap \"echo inner\" EXIT; echo outer' EXIT"), ("debug_trap_func", "f() { :; }; trap 'f' DEBUG; f; trap - DEBUG; echo ok"),
+    ("err_trap_fail", "trap 'false' ERR; false; echo $?"), ("prompt_command", "PROMPT_COMMAND='PROMPT_COMMAND=x'; echo ok"),
+    ("chain_1000", "for k in {0..999}; do eval \"v$k=v$((k+1))\"; done; v1000=7; echo $((v0))"),
+    ("chain_1100", "for k in {0..1099}; do eval \"v$k=v$((k+1))\"; done; v1100=7; echo $((v0)); echo $?"),
+    ("chain_sub_600", "for k in {0..599}; do eval \"v$k='a[v$((k+1))]'\"; done; v600=0; a[0]=7; echo $((v0)); echo $?"),
+    ("cnf_handler", "command_not_found_handle() { echo h; return 3; }; nosuchcmd; echo $?"),
+]
+
+
+def _outcome(r):
+    """how a run ended, as the property sees it"""
+    return r["how"] if r["how"] != "status" else "status"
+
+
+def recursion_stage(ctx):
+    cases = []   # (bucket, script, model request or None)
+    quick_exprs = ["x", "x+0", "a[x]", "a[x]=1", "a[x]++", "a[x]+=1", "++x", "x+=1", "0&&x", "1?2:x", "a[a[x]]", "y", "a", "a[0]=1"]
+    quick_setups = ("scalar_sub", "elem", "assoc", "fine")
+    for ename, env in CYC_ENVS:
+        setup = "; ".join("%s='%s'" % kv for kv in env.items())
+        req_env = " ".join("%s=%s" % (k, esc(v)) for k, v in env.items())
+        for e in CYC_EXPRS:
+            if ctx.quick and e not in quick_exprs and not ename.startswith("fine"):
+                continue
+            cases.append(("cyc_model", "%s; echo $((%s))" % (setup, e), "C07 E %s %s" % (esc(e), req_env)))
+    for sname, setup, name in CYC_SETUPS:
+        if ctx.quick and sname not in quick_setups:
+            continue
+        for c in CYC_CONTEXTS:
+            cases.append(("cyc_context", setup + "; " + c.replace("N", name), None))
+    for oname, script in OTHER_RECURSION:
+        cases.append(("recursion_other", script, None))
+    reqs = [c[2] for c in cases if c[2]]
+    mouts = iter(lib.run_drv_parallel(reqs)) if reqs else iter(())
+    preds = [next(mouts) if c[2] else None for c in cases]
+
+    def one(c):
+        b = run_script(c[1], timeout=15, mem_gb=2)
+        # the oracle is only needed to tell an unbounded script from an unbounded shell
+        o = run_script(c[1], timeout=15, mem_gb=2, which="bash") if b["how"] != "status" else None
+        return b, o
+
+    res = lib.pmap(one, cases, workers=min(lib.NCPU, 8))
+    nviol = 0
+    for (bucket, script, req), pred, (b, o) in zip(cases, preds, res):
+        ctx.count(("rec", script), bucket=bucket)
+        ctx.impl_validated += 1
+        case = {"script": script, "brush": {k: b[k] for k in ("how", "rc", "loc", "msg")}, "stderr_tail": b["err"][-200:]}
+        if o is not None:
+            case["bash"] = {k: o[k] for k in ("how", "rc")}
+        if b["how"] != "status":
+            # bash dying of the same script (signal / timeout) means the script itself is unbounded
+            if o is not None and o["how"] != "status":
+                ctx.bucket("recursion_unbounded_in_bash_too")
+                continue
+            if nviol < 10:
+                nviol += 1
+                ctx.violation("brush does not end in a status (%s) on a bounded recursion shape; bash ends with status %s"
+                              % (b["how"], o["rc"] if o else "?"), case)
+            continue
+        if pred is not None:
+            # tie to the evaluator model (C07's `eval`, the one the depth theorems are about)
+            case["model"] = pred
+            head = pred.split(" | ")[0]
+            bout = b.get("out", "")
+            if head.startswith("v "):
+                good = b["rc"] == 0 and bout.strip() == head[2:]
+            elif head == "e recursion":
+                good = b["rc"] != 0 and "recursion" in b["err"]
+            else:
+                good = b["rc"] != 0
+            if not good and nviol < 10:
+                nviol += 1
+                case["brush_out"] = bout[:100]
+                ctx.violation("evaluator model and brush disagree on a self-referential arithmetic input", case, kind="correspondence")
+    ctx.sample({"recursion_script": cases[4][1], "model": preds[4], "brush": res[4][0]["how"]})
 
 
 # ---------------------------------------------------------------------------------------------
@@ -605,6 +754,8 @@ def explore_inproc(ctx):
             if nviol < 25:
                 nviol += 1
                 ctx.violation("completion returned a range outside the line / off a char boundary: " + p, case)
+        elif o == "SKIPPED":
+            ctx.bucket("skipped_after_too_many_harness_restarts")
         elif k not in ("OK", "ERR"):
             ctx.broken.append("harness c01 answered %r to %s" % (o[:60], op))
     if texts:
@@ -656,7 +807,7 @@ class Gen:
     def arith(self, d):
         r = self.rng
         if d <= 0 or r.random() < 0.3:
-            return r.choice([self.num(), "x", "y", "n", "arr[1]", "un", "m[k]", "$x", "${#x}", "RANDOM"])
+            return r.choice([self.num(), "x", "y", "n", "arr[1]", "un", "m[k]", "$x", "${#x}", "RANDOM", "cy", "cx", "arr[cy]", "arr[cx]"])
         x = r.random()
         if x < 0.6:
             return "%s %s %s" % (self.arith(d - 1), r.choice(ARITH_OPS + ["=", "+=", "<<=", "**", "/", "%"]), self.arith(d - 1))
@@ -675,7 +826,7 @@ class Gen:
         w = self.word(d - 1, nocmd) if d > 0 else "w"
         ops = ["", ":-" + w, ":=" + w, ":+" + w, ":?" + w, "-" + w, "#" + w, "##" + w, "%" + w, "%%" + w, "/" + w + "/" + w, "//" + w, "/#" + w + "/r",
                "/%" + w + "/r", "^", "^^", ",", ",,", "@Q", "@E", "@P", "@A", "@a", "@U", "@u", "@L", "@K", "@k",
-               ":" + self.num(), ":" + self.num() + ":" + self.num(), ": " + self.num() + ": " + self.num(), ":(%s)" % self.arith(1)]
+               ":" + self.num(), ":" + self.num() + ":" + self.num(), ":cy:1", ":0:cx", ":arr[cy]", ": " + self.num() + ": " + self.num(), ":(%s)" % self.arith(1)]
         op = r.choice(ops)
         if v in ("un", "1") and op.startswith(":?"):
             op = ":-d"
@@ -810,7 +961,7 @@ class Gen:
 
     def script(self):
         r = self.rng
-        pre = "x=abc; y='a b  c'; z=; arr=(1 2 3); declare -A m=([k]=v); n=5; set -- p1 'p 2' p3\n"
+        pre = "x=abc; y='a b  c'; z=; arr=(1 2 3); declare -A m=([k]=v); n=5; cy='arr[cy]'; cx=cx; set -- p1 'p 2' p3\n"
         body = "\n".join(self.cmd(r.randint(1, 4)) for _ in range(r.randint(1, 4)))
         # token mutation only where it cannot unbound a counting loop
         if r.random() < 0.15 and not re.search(r"\b(while|until)\b|for \(\(", body):
@@ -888,7 +1039,8 @@ def run_script(script, timeout=10, mem_gb=3, which="brush", interactive=False, s
     finally:
         shutil.rmtree(d, ignore_errors=True)
     err = err.decode("utf-8", "replace")
-    res = {"rc": rc, "how": "status", "loc": "", "msg": "", "err": err[-600:], "secs": round(time.time() - t0, 2)}
+    res = {"rc": rc, "how": "status", "loc": "", "msg": "", "err": err[-600:], "secs": round(time.time() - t0, 2),
+           "out": out.decode("utf-8", "replace")[:2000]}
     m = re.search(r"panicked at ([^\s:]+):(\d+):\d+:\s*\n([^\n]*)", err)
     if to:
         res["how"] = "timeout"
@@ -977,7 +1129,33 @@ def explore_binary(ctx):
 
 # ---------------------------------------------------------------------------------------------
 
+def warm_private_target():
+    """A VERIF_REPO run builds into a private target dir; a cold one rebuilds ~400 dependency crates
+    (10+ minutes on a loaded machine). Dependencies do not depend on the checkout, so start from a copy
+    of the main target's artefacts (taken under the main target's cargo lock): only brush's own crates and
+    the harness are rebuilt."""
+    main = os.path.join(lib.BUILD, "target")
+    if lib.TARGET == main or os.path.isdir(os.path.join(lib.TARGET, "debug")) or not os.path.isdir(os.path.join(main, "debug")):
+        return
+    t0 = time.time()
+    with lib.flock("cargo-target"):
+        dst = os.path.join(lib.TARGET, "debug")
+        os.makedirs(dst, exist_ok=True)
+        for sub in ("deps", ".fingerprint", "build"):
+            src = os.path.join(main, "debug", sub)
+            if os.path.isdir(src):
+                subprocess.run(["cp", "-a", src, dst + "/"], check=False)
+        for f in (".rustc_info.json", "CACHEDIR.TAG"):
+            if os.path.exists(os.path.join(main, f)):
+                shutil.copy2(os.path.join(main, f), os.path.join(lib.TARGET, f))
+    lib.log("warmed %s from the main target in %.0f s" % (lib.TARGET, time.time() - t0))
+
+
 def run(ctx):
+    try:
+        warm_private_target()
+    except Exception as ex:  # a cold build is only slower
+        lib.log("could not warm the private target: %r" % (ex,))
     ok, out = lib.cargo_build([BIN])
     if not ok:
         lib.log(out[-4000:])
@@ -985,6 +1163,7 @@ def run(ctx):
     ctx.proof_stage()
     if not ok:
         return
+    recursion_stage(ctx)
     hot_stage(ctx)
     explore_inproc(ctx)
     explore_binary(ctx)
@@ -992,11 +1171,15 @@ def run(ctx):
         "hot spots: exhaustive boundary grid {0,±1,±2,len-1,len,len+1,-len,-len-1,i64 MIN/MAX(±1),2^31,2^32,2^62} for offset × length × "
         "%d strings / 4 array sizes, every i8 and beyond for break/continue, %d brace literals^2 × %d increments, %d char pairs × %d increments, "
         "20 operators × %d^2 operands, plus seeded random around the same boundaries — brush (in-process, catch_unwind) vs the checked Lean model; "
+        "recursion shapes (binary, bash as oracle for unbounded scripts): %d self-/mutually-referential variable environments x %d arithmetic expressions compared with C07's evaluator model, "
+        "%d cyclic setups (scalar, array element, associative element) x %d shell contexts that evaluate arithmetic, %d other bounded recursion shapes (alias loops, ${!v}, namerefs, "
+        "functions/eval/command substitution/subshell/group nesting to depth 64, chains at the 1024 dereference bound); "
         "exploration (FUZZING, not proof): every stdin script of brush's suite + all strings of length <= 3 over a 19-symbol structural alphabet "
         "through tokenizer/program/word/brace/pattern/arithmetic/prompt/test parsers; highlighter and completion at every cursor; nesting depth 1..64 of 20 "
         "constructs; seeded byte/token mutation of suite scripts (parsed, highlighted, completed — never executed); generated scripts over a safe "
         "vocabulary run in the brush binary (timeout 10 s, 3 GB, scratch cwd). non-trivial = more than one character / any hot-spot case"
-        % (len(STRS), len(BRACE_NUMS), len(BRACE_INCS), len(LETTERS) ** 2, len(CHAR_INCS), len(ARITH_VALS)))
+        % (len(STRS), len(BRACE_NUMS), len(BRACE_INCS), len(LETTERS) ** 2, len(CHAR_INCS), len(ARITH_VALS),
+           len(CYC_ENVS), len(CYC_EXPRS), len(CYC_SETUPS), len(CYC_CONTEXTS), len(OTHER_RECURSION)))
     ctx.assumptions += [
         "the theorems cover the modelled integer/index hot spots only; tokenizer, PEG parsers, interpreter, highlighter, completion and prompt "
         "expansion are explored by fuzzing, not proved",
